@@ -332,6 +332,12 @@ def run(r: core.Run):
             break
     if done:
         return
+    crash = core.crash_of(tie)
+    if crash:
+        r.violation({"protocol": "stmts", "statement": crash[0], "crash": crash[1],
+                     "what": "executing the statement crashes the process — a panic in a goroutine the engine spawned, which no caller can recover: " + crash[1],
+                     "how_to_replay": "run the statement on a store that holds the graphs it names (the crash may depend on scheduling)"})
+        return
     if not pr["ok"] or tie is not None:
         r.violation({"protocol": "stmts",
                      "what": "proof obligation or correspondence no longer checks; no statement sequence on which the implementation breaks the property was found",
